@@ -532,7 +532,7 @@ ASSUMPTIONS = ['float payloads and the streaming parser are only in the bounded 
 
 def values(rng, depth=0):
     scal = [0, 1, -1, 10, 255, 2 ** 40, -(2 ** 70), True, False, None, b'', b':', b'3:abc,', b'0:~', b'12', b'a:b,c#', u'', u'x', u'\xe9€\U0001f600',
-            u'5:', 1.5, -0.25, 1e300, 0.1,
+            u'5:', u'\ufeffbom', 1.5, -0.25, 1e300, 0.1,
             # doubles whose shortest exact text needs 17 significant digits, the largest and the smallest double, seeded ones
             0.1 + 0.2, 1.0 / 3.0, 2 ** 0.5, 1.7976931348623157e+308, 5e-324, 123456789.12345679, rng.random(), rng.uniform(-1e20, 1e20), rng.uniform(-1e-9, 1e-9)]
     v = rng.choice(scal)
@@ -605,7 +605,9 @@ def bounded(tier, seed):
         if not ok:
             violations.append(dict(key='roundtrip %r + %r' % (v, rest), observed=obs[:300], required='the value (same types) and the untouched rest'))
     # streaming machine: supported types # , $ ~ ; every two-way split, byte at a time; following data untouched
-    svals = [0, 7, 12345678901234567890, b'', b'abc', b'1:x,', b':::', b'9', u'x', u'\xe9€', None, b'a' * 40]
+    svals = [0, 7, 12345678901234567890, b'', b'abc', b'1:x,', b':::', b'9', u'x', u'\xe9€', None, b'a' * 40,
+             # text whose first / only / inner characters are ones a codec may treat specially (signature, NUL, non-BMP, line and paragraph separators)
+             u'\ufeffx', u'\ufeff', u'x\ufeffy', u'\x00', u'\U0001f600', u'\u2028\u2029', u'\ufffe\uffff', b'\xef\xbb\xbfx']
     for v in svals:
         enc = tnetstrings.dump(v)
         tail = rng.choice([b'', b'3:abc,', b'0:~'])
@@ -657,6 +659,31 @@ def bounded(tier, seed):
         norm = lambda xs: [bytes(x) if isinstance(x, (bytes, bytearray)) else x for x in xs]
         if norm(got) != norm(slow_items) and len(violations) < 8:
             violations.append(dict(key='tnet_from slow sender, split at %r (receive timeouts in between)' % (k,), observed=repr(got)[:300], required=repr(slow_items)))
+    # blocks that fill the receive buffer exactly (one or more times), with nothing more pending when they have been read
+    for fill in (4096, 8192, 4095, 4097, 12288):
+        first = []
+        size = 0
+        while size < fill:
+            room = fill - size
+            if room >= 4096:
+                room = 4096 if fill - size - 4096 == 0 or fill - size - 4096 >= 10 else room - 10
+            n_ = room - 2 - 1
+            n_ -= len(str(n_))                    # len(str(n)) + ':' + n + ',' + newline == room
+            if len(str(n_)) + n_ + 3 != room:
+                n_ += room - (len(str(n_)) + n_ + 3)
+            first.append(bytes(bytearray((size + j) % 251 for j in range(n_))))
+            size += len(tnetstrings.dump(first[-1])) + 1
+        items = first + [b'after', 5]
+        head = b''.join(tnetstrings.dump(m) + b'\n' for m in first)
+        rest_ = b''.join(tnetstrings.dump(m) + b'\n' for m in items[len(first):])
+        ev += 1
+        distinct.add(('from-fill', fill, len(head)))
+        got = tnet_from_stream([head, rest_], gap=0.15, timeout=1.0, drop_none=True)
+        norm = lambda xs: [bytes(x) if isinstance(x, (bytes, bytearray)) else x for x in xs]
+        if norm(got) != norm(items) and len(violations) < 8:
+            violations.append(dict(key='tnet_from: a block of %d bytes (%d messages), a pause, then two more messages' % (len(head), len(first)),
+                                   observed=repr([x if not isinstance(x, (bytes, bytearray)) or len(x) < 12 else '<%d bytes>' % len(x) for x in got])[:300],
+                                   required='the %d messages sent, in order' % len(items)))
     # text below containers with an encoding other than the default
     for enc in ('latin-1', 'utf-16-le', 'cp1252'):
         for v in ({'k': u'\xe9t\xe9'}, [u'\xe9', {'a': {'b': u'na\xefve'}}], {'x': [u'\xfc', 1, None]}, u'\xe9'):
@@ -675,7 +702,7 @@ def bounded(tier, seed):
                 rule='(a) seeded values (ints incl. > 64 bit, bools, None, bytes that look like prefixes/colons/type tags, multi-byte text, floats, nested lists and '
                      'string-keyed dicts to depth 3) x following data: parse(dump(v) + rest) == (v, rest) with equal types; (b) the real tnet_machine fed like '
                      'tnet_from for the types it supports, every two-way split and byte-at-a-time, followed by further data: same payload, terminal, '
-                     'source.sent == len(dump(v)); (c) the real tnet_from loop on a socket pair: messages separated by one, two or three newlines (payloads containing newlines at every position) in one chunk and two-way splits: the same payloads; a slow sender (receive timeouts inside a message, next block starting with a payload newline); text below containers with latin-1 / utf-16-le / cp1252; distinct = distinct values / (value, chunking)',
+                     'source.sent == len(dump(v)); (c) the real tnet_from loop on a socket pair: messages separated by one, two or three newlines (payloads containing newlines at every position) in one chunk and two-way splits: the same payloads; a slow sender (receive timeouts inside a message, next block starting with a payload newline); blocks of exactly 4095/4096/4097/8192/12288 bytes followed by a pause; text below containers with latin-1 / utf-16-le / cp1252; distinct = distinct values / (value, chunking)',
                 exhaustive=False, samples=samples, violations=violations[:20], seed=seed)
 
 
